@@ -140,6 +140,118 @@ let case_match have_h items_s want_h res =
     verdict "diffmatch" ok;
     if not ok then report "SPEC" "diffmatch" (inp ^ " expected_empty=" ^ string_of_bool m)
 
+(* ---------- the inner functions ---------- *)
+let split_char c s = if s = "" then [] else String.split_on_char c s
+
+let lines_of_enc e =
+  (* <n>:<hex of the lines joined by newline>; every line gets its newline back *)
+  let i = String.index e ':' in
+  let n = int_of_string (String.sub e 0 i) in
+  if n = 0 then [] else
+    List.map (fun l -> chars_of_string (l ^ "\n")) (String.split_on_char '\n' (unhex (String.sub e (i + 1) (String.length e - i - 1))))
+
+let ints_of s = List.map int_of_string (String.split_on_char '.' s)
+let blocks_of s = List.map (fun t -> match ints_of t with [a; b; k] -> ((nat_of_int a, nat_of_int b), nat_of_int k) | _ -> failwith "block") (split_char ';' s)
+let code_of t =
+  match String.split_on_char '.' t with
+  | [tg; a; b; c; d] ->
+    let tag = (match tg with "r" -> TR | "d" -> TD | "i" -> TI | "e" -> TE | _ -> failwith ("tag " ^ tg)) in
+    { oTag = tag; oI1 = nat_of_int (int_of_string a); oI2 = nat_of_int (int_of_string b);
+      oJ1 = nat_of_int (int_of_string c); oJ2 = nat_of_int (int_of_string d) }
+  | _ -> failwith "opcode"
+let codes_of s = if s = "-" then [] else List.map code_of (String.split_on_char ';' s)
+let groups_of s = if s = "-" then [] else List.map codes_of (String.split_on_char '|' s)
+
+let show_block ((a, b), k) = Printf.sprintf "%d.%d.%d" (int_of_nat a) (int_of_nat b) (int_of_nat k)
+let show_code c = Printf.sprintf "%s.%d.%d.%d.%d" (match c.oTag with TR -> "r" | TD -> "d" | TI -> "i" | TE -> "e")
+    (int_of_nat c.oI1) (int_of_nat c.oI2) (int_of_nat c.oJ1) (int_of_nat c.oJ2)
+let show_codes cs = if cs = [] then "-" else String.concat ";" (List.map show_code cs)
+let show_groups gs = if gs = [] then "-" else String.concat "|" (List.map show_codes gs)
+
+let case_format a b out_h =
+  bump "cases.fn.format_range";
+  let m = string_of_chars (m_format_range (nat_of_int (int_of_string a)) (nat_of_int (int_of_string b))) in
+  if !verbose then Printf.printf "CASE F formatRangeUnified(%s, %s): implementation %S, model %S\n" a b (unhex out_h) m;
+  if m <> unhex out_h then report "MODEL" "format-range" (Printf.sprintf "start=%s stop=%s out=%s model=%s" a b out_h (hex m))
+
+let case_split text_h pieces =
+  bump "cases.fn.split_lines";
+  let m = String.concat "," (List.map (fun l -> hex (string_of_chars l)) (m_split_lines (chars_of_string (unhex text_h)))) in
+  if !verbose then Printf.printf "CASE S splitLines(%S): implementation %s, model %s\n" (unhex text_h) pieces m;
+  if m <> pieces then report "MODEL" "split-lines" (Printf.sprintf "text=%s out=%s model=%s" text_h pieces m)
+
+let case_flm ea eb alo ahi blo bhi res =
+  bump "cases.fn.flm";
+  let inp = Printf.sprintf "A=%s B=%s alo=%s ahi=%s blo=%s bhi=%s result=%s" ea eb alo ahi blo bhi (String.concat "." res) in
+  match res with
+  | [p] when String.length p > 0 && p.[0] = 'P' -> verdict "returns" false; report "SPEC" "flm-panic" inp
+  | [ra; rb; rk] ->
+    let a = lines_of_enc ea and b = lines_of_enc eb in
+    let n s = nat_of_int (int_of_string s) in
+    let im = ((n ra, n rb), n rk) in
+    let mm = m_flm a b (n alo) (n ahi) (n blo) (n bhi) in
+    if !verbose then Printf.printf "CASE G findLongestMatch %s: implementation %s, model %s\n" inp (show_block im) (show_block mm);
+    if show_block im <> show_block mm then report "MODEL" "flm" (inp ^ " model=" ^ show_block mm);
+    let ok = s_flm_ok a b (n alo) (n ahi) (n blo) (n bhi) im in
+    verdict "flm-sound" ok; if not ok then report "SPEC" "flm-sound" inp;
+    let mx = s_flm_max a b (n alo) (n ahi) (n blo) (n bhi) im in
+    verdict "flm-maximal" mx; if not mx then report "SPEC" "flm-maximal" inp
+  | _ -> ()
+
+let case_lists gen ea eb rest =
+  bump ("cases.fn." ^ gen);
+  let key = "B" ^ ea ^ " " ^ eb in
+  if not (Hashtbl.mem seen key) then begin
+    Hashtbl.add seen key (); bump "distinct.lists";
+    if ea <> eb then bump "distinct_nontrivial.lists"
+  end;
+  let inp0 = Printf.sprintf "gen=%s A=%s B=%s" gen ea eb in
+  match rest with
+  | [p] when String.length p > 0 && p.[0] = 'P' ->
+    verdict "returns" false; report "SPEC" "lists-panic" (inp0 ^ " panic=" ^ String.sub p 1 (String.length p - 1))
+  | [bl; ops; grp; out_h] ->
+    let a = lines_of_enc ea and b = lines_of_enc eb in
+    let inp = Printf.sprintf "%s blocks=%s opcodes=%s groups=%s out=%s" inp0 bl ops grp out_h in
+    if !verbose then Printf.printf "CASE B %s\n  implementation: blocks %s\n    opcodes %s\n    groups %s\n" inp0 bl ops grp;
+    (* model *)
+    (match m_blocks a b with
+     | None -> report "MODEL" "fuel" inp
+     | Some ms -> let m = String.concat ";" (List.map show_block ms) in
+       if !verbose then Printf.printf "  model: blocks %s\n" m;
+       if m <> bl then report "MODEL" "blocks" (inp ^ " model=" ^ m));
+    (match m_opcodes a b with
+     | None -> ()
+     | Some cs -> if !verbose then Printf.printf "    opcodes %s\n" (show_codes cs);
+       if show_codes cs <> ops then report "MODEL" "opcodes" (inp ^ " model=" ^ show_codes cs));
+    (match m_groups a b with
+     | None -> ()
+     | Some gs -> if !verbose then Printf.printf "    groups %s\n" (show_groups gs);
+       if show_groups gs <> grp then report "MODEL" "groups" (inp ^ " model=" ^ show_groups gs));
+    let out = unhex out_h in
+    (match m_diff_lines a b with
+     | None -> ()
+     | Some m -> let m = string_of_chars m in
+       if !verbose then (show_text "implementation makeUnifiedDiff" out; show_text "model makeUnifiedDiff" m);
+       if m <> out then report "MODEL" "unified" (inp ^ " model=" ^ hex m));
+    (* contracts on the implementation's own results *)
+    let okb = (try s_blocks_ok a b (blocks_of bl) with _ -> false) in
+    verdict "blocks" okb; if not okb then report "SPEC" "blocks" inp;
+    let okt = (try s_tiles_ok a b (codes_of ops) with _ -> false) in
+    verdict "opcodes-tile" okt; if not okt then report "SPEC" "opcodes-tile" inp;
+    let oc = chars_of_string out in
+    let e = s_empty_iff_lines a b oc in
+    verdict "empty-iff" e; if not e then report "SPEC" "lists-empty-iff" inp;
+    if out <> "" then begin
+      match s_parse ('\n' :: oc) with
+      | None -> verdict "format" false; report "SPEC" "lists-format" inp
+      | Some hs ->
+        verdict "format" true;
+        let p = s_patch_lines a b hs in verdict "patch" p; if not p then report "SPEC" "lists-patch" inp;
+        let h = s_headers hs in verdict "headers" h; if not h then report "SPEC" "lists-headers" inp;
+        let c = s_context hs in verdict "context" c; if not c then report "SPEC" "lists-context" inp
+    end
+  | _ -> ()
+
 let () =
   let files = ref [] in
   Array.iteri (fun i a -> if i > 0 then (if a = "-v" then verbose := true else files := a :: !files)) Sys.argv;
@@ -150,6 +262,10 @@ let () =
     (match f with
      | ["D"; gen; have; want; out] -> incr total; case_diff gen have want out
      | ["M"; have; items; want; res] -> incr total; case_match have items want res
+     | ["F"; a; b; out] -> incr total; case_format a b out
+     | ["S"; text; pieces] -> incr total; case_split text pieces
+     | "G" :: ea :: eb :: alo :: ahi :: blo :: bhi :: res -> incr total; case_flm ea eb alo ahi blo bhi res
+     | "B" :: gen :: ea :: eb :: rest -> incr total; case_lists gen ea eb rest
      | _ -> ())
   done with End_of_file -> ());
   let ks = List.sort compare (Hashtbl.fold (fun k v acc -> (k, v) :: acc) counts []) in
